@@ -145,7 +145,8 @@ def create_read_grouper(args, sample, chr_id):
             return AlignmentTagReadGrouper(tag="RG")
         return AlignmentTagReadGrouper(tag=values[1])
     elif values[0] == 'read_id':
-        return ReadIdSplitReadGrouper(delim=values[1])
+        # the delimiter is everything behind the first colon (it may be, or contain, a colon itself)
+        return ReadIdSplitReadGrouper(delim=option.split(':', 1)[1])
     elif values[0] == 'file':
         read_group_chr_filename = sample.read_group_file + "_" + chr_id
         if not os.path.exists(read_group_chr_filename):
